@@ -38,7 +38,7 @@ func c06() {
 			}
 		}
 	}
-	nRandom := run.N(4000, 300000)
+	nRandom := run.N(40000, 1500000)
 	total := len(cat) + nRandom
 
 	var mu sync.Mutex
